@@ -65,7 +65,9 @@ RULE = ("paired runs of the real drivers on small planted low-rank problems (ord
         "(cp_apr has a fixed mode order and is excluded); for cp_als additionally the returned factor LIST and weights against "
         "the relabelling of the other run's (with fixsigns only in components with an even number / at most one negative mode, "
         "established from a run without fixsigns; otherwise the recorded finding F18-fixsigns-relabel) and the reported "
-        "dimorder / optdims of both runs against the model of the option validation (c18_relabel_setup); relabel_cleanup: "
+        "dimorder / optdims of both runs against the model of the option validation (c18_relabel_setup); for tucker_als the "
+        "factor list (relabelled) and the core (permuted) with their own perturbation control, for tucker_als / hosvd (given, "
+        "mixed and automatic ranks) the relabelled rank vector / dimorder against c18_relabel_args; relabel_cleanup: "
         "ktensor.arrange / fixsigns on generated Kruskal models with integer column norms (N=2..4, rank 1..3, repeated / distinct "
         "/ singleton extents, sign patterns all-negative / one / two / random negative dominant entries, zero columns, weights "
         "that the sort has to reorder) and on their relabelling against the exact model c18_relabel_cleanup (1e-12 and equal sign "
@@ -109,7 +111,8 @@ ASSUMPTIONS = [
     "sense of Tk.LeadSpec — orthonormal, eigenvectors, decreasing eigenvalues, the rest dominated, flipsign convention — the "
     "answer is one) and the hypothesis that every request of the unscaled run has exactly one admissible answer (distinct "
     "leading eigenvalues; automatic for modes of extent one); that ARPACK / LAPACK meet the contract is not proved (C14 "
-    "checks it on recorded calls)",
+    "checks it on recorded calls); C18_relabel_tucker_run uses the same contract and determinacy hypothesis, "
+    "C18_relabel_hosvd assumes nothing about scipy.linalg.eigh (it is handed the same matrix in both runs)",
 ]
 EXHAUSTIVE = {"quick": False, "thorough": False}
 TRUSTED_EXTRA = ["recording subclass of tensor/sptensor (attribute access seen from frames of pyttb driver files)"]
